@@ -23,6 +23,15 @@ var propMeta = map[string]propInfo{
 	"C01": {Pkg: "store", Level: "exploration", QuickRuns: 4000, QuickBudgetS: 25,
 		Rule:  "one evaluation = one seeded history (5-80 ops over 1-4 users, 1-3 parameter sets, 1-2 store instances with different defaults, clock steps) checked step by step against the store model incl. near-miss sweeps after every write; distinct non-trivial = distinct (configuration, history) with >= 2 acknowledged writes",
 		Real:  realL, Stub: stubsL, Assumptions: assumeL},
+	"C08": {Pkg: "store", Level: "fault_enumeration", QuickRuns: 400, QuickBudgetS: 40,
+		Rule:  "one evaluation = one crash point: for a generated scenario (store with 1-4 reference-written users, aux data of every shape, one init/add/update) EVERY simfs operation boundary of the call and three prefixes inside every write is a crash point; at each, the process-kill image and the power-loss images (all of them when <= limit, else DFS prefix + sampled) are opened with a fresh store and judged by the recovery oracle; distinct non-trivial = distinct (configuration, operation, population, aux size) scenarios swept",
+		Real:  realL, Stub: stubsL, Assumptions: assumeL},
+	"C09": {Pkg: "store", Level: "fault_enumeration", QuickRuns: 3000, QuickBudgetS: 30,
+		Rule:  "one evaluation = one power-loss image reachable from the state at the return of an acknowledged init/add/update/set-admin/remove (all images when <= limit); each must show the acknowledged change; distinct non-trivial = distinct (configuration, operation, population)",
+		Real:  realL, Stub: stubsL, Assumptions: assumeL},
+	"C15": {Pkg: "store", Level: "fault_enumeration", QuickRuns: 1500, QuickBudgetS: 30,
+		Rule:  "one evaluation = one single-fault execution: for a generated scenario and one mutating call, EVERY simfs operation index of the clean execution x every errno applicable to that operation (ENOSPC, EIO, EACCES, EMFILE) and two short writes per write is injected alone, the directory compared byte-exactly with the pre-state; plus every read-only call with no fault and with a fault at each of its operations (mutation counter must stay 0); distinct non-trivial = distinct (configuration, operation, population, aux size) scenarios swept",
+		Real:  realL, Stub: stubsL, Assumptions: assumeL},
 	"C14": {Pkg: "store", Level: "exploration", QuickRuns: 4000, QuickBudgetS: 20,
 		Rule:  "one evaluation = one seeded sequence of 3-12 writes under a generated YAML configuration; every record parsed and recomputed by the reference implementation, salts matched against the recorded random stream, byte log scanned for marker passwords and HMAC keys; distinct non-trivial = distinct (configuration, password) pairs written",
 		Real:  realL, Stub: stubsL, Assumptions: assumeL},
